@@ -391,9 +391,30 @@ fn set_msg(slot: &mut Slot, m: &str) {
     slot.msg_len = n as u32;
 }
 
+/// Helpers are registered in an order that is a deterministic function of the case (as listed,
+/// reversed, rotated, or shuffled by a hash): the order of registration is part of the input
+/// space of the API, and the lists the generators produce are sorted by id.
+pub fn registration_order(case: &ExecCase) -> Vec<(u32, u8)> {
+    let mut v = case.helpers.clone();
+    if v.len() < 2 {
+        return v;
+    }
+    let h = crate::engine::fnv(&case.prog);
+    match h % 4 {
+        0 => {}
+        1 => v.reverse(),
+        2 => {
+            let k = (h >> 8) as usize % v.len();
+            v.rotate_left(k);
+        }
+        _ => v.sort_by_key(|(id, _)| crate::engine::splitmix(*id as u64 ^ h)),
+    }
+    v
+}
+
 macro_rules! configure_vm {
     ($vm:expr, $case:expr) => {{
-        for (id, p) in &$case.helpers {
+        for (id, p) in &registration_order($case) {
             $vm.register_helper(*id, pool_fn(*p)).unwrap();
         }
         if let Some((table, default)) = &$case.calc {
